@@ -145,7 +145,16 @@ func localDesc(r ssa.Value, depth int) string {
 		return "φ" + x.Comment
 	case *ssa.Slice:
 		rr, p := accessPath(x.X)
-		return "slice(" + localDesc(rr, depth+1) + "." + strings.Join(p, ".") + ")"
+		bt := func(v ssa.Value) string {
+			if v == nil {
+				return ""
+			}
+			if c, ok := constIntOf(stripConv(v)); ok {
+				return fmt.Sprint(c)
+			}
+			return "_"
+		}
+		return "slice(" + localDesc(rr, depth+1) + "." + strings.Join(p, ".") + "[" + bt(x.Low) + ":" + bt(x.High) + "])"
 	case *ssa.Const:
 		return "const"
 	case *ssa.Lookup:
@@ -202,6 +211,31 @@ func termOf(fn *ssa.Function, v ssa.Value) string {
 	return ""
 }
 
+// termOff maps v to (term, off) with value(v) = value(term) + off: sees through
+// len(x[k:]) = len(x)-k and +/- constants.
+func termOff(fn *ssa.Function, v ssa.Value) (string, int64) {
+	v = stripConv(v)
+	if cl, ok := v.(*ssa.Call); ok && calleeName(&cl.Call) == "builtin:len" {
+		if sl, ok := stripConv(cl.Call.Args[0]).(*ssa.Slice); ok && sl.High == nil && sl.Max == nil && sl.Low != nil {
+			if k, isC := constIntOf(stripConv(sl.Low)); isC && arrayLenOfPtr(sl.X.Type()) < 0 {
+				r, p := accessPath(stripConv(sl.X))
+				return "len:" + rootKey(fn, r) + "." + strings.Join(p, "."), -k
+			}
+		}
+	}
+	if bo, ok := v.(*ssa.BinOp); ok && (bo.Op == token.ADD || bo.Op == token.SUB) {
+		if c, isC := constIntOf(stripConv(bo.Y)); isC {
+			if t, off := termOff(fn, bo.X); t != "" {
+				if bo.Op == token.ADD {
+					return t, off + c
+				}
+				return t, off - c
+			}
+		}
+	}
+	return termOf(fn, v), 0
+}
+
 // refine applies the fact `cond == outcome` to f.
 func refineFacts(fn *ssa.Function, f facts, cond ssa.Value, outcome bool) {
 	bo, ok := cond.(*ssa.BinOp)
@@ -212,9 +246,11 @@ func refineFacts(fn *ssa.Function, f facts, cond ssa.Value, outcome bool) {
 		return
 	}
 	op := bo.Op
-	lt, rt := termOf(fn, bo.X), termOf(fn, bo.Y)
+	lt, loff := termOff(fn, bo.X)
+	rt, roff := termOff(fn, bo.Y)
 	lc, lok := constIntOf(stripConv(bo.X))
 	rc, rok := constIntOf(stripConv(bo.Y))
+	rc, lc = rc-loff, lc-roff
 	apply := func(term string, op token.Token, c int64) {
 		iv := f.get(term)
 		if strings.HasPrefix(term, "len:") && iv.lo < 0 {
@@ -859,13 +895,13 @@ func condRefuted(fn *ssa.Function, f facts, cond ssa.Value, outcome bool) bool {
 		return false
 	}
 	term, c, op := "", int64(0), bo.Op
-	if t := termOf(fn, bo.X); t != "" {
+	if t, off := termOff(fn, bo.X); t != "" {
 		if k, ok := constIntOf(stripConv(bo.Y)); ok {
-			term, c = t, k
+			term, c = t, k-off
 		}
-	} else if t := termOf(fn, bo.Y); t != "" {
+	} else if t, off := termOff(fn, bo.Y); t != "" {
 		if k, ok := constIntOf(stripConv(bo.X)); ok {
-			term, c = t, k
+			term, c = t, k-off
 			op = map[token.Token]token.Token{token.LSS: token.GTR, token.LEQ: token.GEQ, token.GTR: token.LSS, token.GEQ: token.LEQ, token.EQL: token.EQL, token.NEQ: token.NEQ}[op]
 		}
 	}
